@@ -89,6 +89,8 @@ class PathCtx:
         'concrete' = length chosen by fork in 0..max_len, symbolic bytes (ASCII for text)."""
         if mode == "opaque":
             ln = self.fresh_bv(name + ".len", 64)
+            self.assume(z3.ULE(ln, (1 << 63) - 1))      # no Rust slice is longer than isize::MAX
+            self.side.setdefault("opaque_lens", []).append(ln)
             self.seq_counter += 1
             return VecV(None, Opaque("%s#%d" % (name, self.seq_counter), ln), kind)
         n = self.choose(max_len + 1, "len@" + name)
@@ -100,6 +102,8 @@ class PathCtx:
 
     def fresh_opaque(self, name, kind="vec", nonempty=False):
         ln = self.fresh_bv(name + ".len", 64)
+        self.assume(z3.ULE(ln, (1 << 63) - 1))          # no Rust slice is longer than isize::MAX
+        self.side.setdefault("opaque_lens", []).append(ln)
         if nonempty:
             self.assume(ln != 0)
         self.seq_counter += 1
@@ -231,8 +235,21 @@ class PathCtx:
         return self.engine.call_path(self, path, args, env or {})
 
     def model(self):
+        """A model of the path condition, preferring short byte strings (so that concretised inputs
+        stay small); lengths are left as they must be when the path needs them large."""
         if not self.check():
             return None
+        lens = self.side.get("opaque_lens", [])
+        if lens:
+            for bound in (8, 64, 70000):
+                self.solver.push()
+                self.solver.add(z3.And([z3.ULE(l, bound) for l in lens]))
+                ok = self.solver.check() == z3.sat
+                m = self.solver.model() if ok else None
+                self.solver.pop()
+                if ok:
+                    return m
+            self.solver.check()
         return self.solver.model()
 
 
